@@ -137,6 +137,48 @@ void h_m_error_reset(void)
 }
 
 
+/*
+ * (d) the chi-square of the consistency test divides each equation's squared
+ * residual by nf^2 + tr^2 |m|^2 of THAT equation's own measured cell: an
+ * in-place ghost assertion (hook in vnacal_new_solve_pvalue.c, LIBVNA_VERIF
+ * only) states it at the point of use; this harness drives the real function
+ * over a real history up to the cut point before the numeric tail
+ * (chisq_pvalue: incomplete gamma function).
+ */
+#ifdef H_PVALUE
+void h_pvalue_variance(void)
+{
+    static const double mv[6] = { 2.0, 3.0, 5.0, 7.0, 11.0, 13.0 };
+    double complex c[6];
+    double complex *m1[1] = { &c[0] }, *m2[1] = { &c[1] };
+    double complex *mt[4] = { &c[2], &c[3], &c[4], &c[5] };
+    double nfv[1] = { 1.0 }, trv[1] = { 1.0 };
+    double complex x[16];
+    vnacal_t *vcp;
+    vnacal_new_t *vnp;
+    vnacal_new_solve_state_t vnss;
+    int n;
+
+    for (int i = 0; i < 6; ++i)
+	c[i] = mv[i];
+    for (int i = 0; i < 16; ++i)
+	x[i] = 1.0;
+    ghost_err_reset();
+    vnp = build(&vcp, m1, m2, mt);
+    ASSUME(vnacal_new_set_m_error(vnp, NULL, 1, nfv, trv) == 0);
+    ASSUME(vs_init(&vnss, vnp) == 0);
+    ASSUME(vs_start_frequency(&vnss, 0) == 0);
+    n = vnp->vn_systems * (vnp->vn_layout.vl_t_terms - 1);
+    ASSUME(n <= 16);
+    REACH("state prepared");
+    (void)_vnacal_new_solve_calc_pvalue(&vnss, x, n);
+    /* not reached under the cut point: the obligations are the ghost assertions inside */
+    vs_free(&vnss);
+    vnacal_new_free(vnp);
+    vnacal_free(vcp);
+}
+#endif
+
 #ifdef H_SIMPLE_INDEX
 /*
  * (c) _vnacal_new_solve_simple reads, for every equation it assembles, the
